@@ -4,6 +4,7 @@ pub mod c07;
 pub mod c15;
 pub mod c18;
 pub mod full_props;
+pub mod handshake_props;
 pub mod mrp_oracles;
 pub mod mrp_props;
 
@@ -39,5 +40,6 @@ pub fn registry() -> Vec<PropertyDef> {
     v.extend(full_props::defs());
     v.extend(admin_props::defs());
     v.extend(c07::defs());
+    v.extend(handshake_props::defs());
     v
 }
